@@ -378,3 +378,158 @@ def token_at_offset(fn, o):
         if len(ks) == 1 and any(x.k == "var" for x in core.walk()):
             return ks[0]
     return None
+
+
+def _index_core(fn, o):
+    """(cursor-variable leaf, constant offset) of the command-line token `o` denotes — `args[i + k]`, `args[i - k]`,
+    `args.get(i + k)`'s payload (possibly handed on through Ok/`?`) — else None"""
+    s = prim.renorm(prim.expand_single_def_vars(fn, o, depth=5)).strip()
+    for _ in range(4):
+        if s.k == "field" and str(s.a) == "0" and s.kids and s.kids[0].strip().k == "variant":
+            s = s.kids[0].strip()
+        if s.k == "variant" and str(s.a) in ("Some", "Ok", "Continue") and s.kids:
+            s = s.kids[0].strip()
+            continue
+        if s.k == "agg" and str(s.a).endswith(("Result::Ok", "Option::Some")) and len(s.kids) == 1:
+            s = s.kids[0].strip()
+            continue
+        break
+    idx = None
+    if s.k == "index" and len(s.kids) == 2 and any(x.k == "arg" and x.a.get("name") == "args" for x in s.kids[0].walk()):
+        idx = s.kids[1].strip()
+    elif s.k == "call" and s.a["name"] in ("index", "get", "get_unchecked") and len(s.kids) == 2 and any(x.k == "arg" and x.a.get("name") == "args" for x in s.kids[0].walk()):
+        idx = s.kids[1].strip()
+    if idx is None:
+        return None
+    core = idx.kids[0].strip() if idx.k == "field" and idx.kids else idx
+    call_bb = s.bb if s.k == "call" else None
+    if core.k == "var":
+        return core, 0, call_bb
+    if core.k == "bin" and core.a in ("Add", "AddWithOverflow", "AddUnchecked", "Sub", "SubWithOverflow", "SubUnchecked") and len(core.kids) == 2:
+        a0, a1 = core.kids[0].strip(), core.kids[1].strip()
+        sub = core.a.startswith("Sub")
+        if a0.k == "var" and a1.k == "const" and isinstance(a1.a.get("v"), int):
+            return a0, (-a1.a["v"] if sub else a1.a["v"]), call_bb
+        if not sub and a1.k == "var" and a0.k == "const" and isinstance(a0.a.get("v"), int):
+            return a1, a0.a["v"], call_bb
+    return None
+
+
+def arm_token_abs(fn, arm, o, use_bb):
+    """Position, counted from the arm's own token (0), of the command-line token that `o` denotes when it is evaluated:
+    `args[i]` after one dominating `i += 1` of the arm is 1, `args[i - 1]` there is 0, `args.get(i + 1)` before any
+    increment is 1. The cursor may be read through a copy made earlier (the argument of a spliced helper). None when
+    `o` is not a token of `args`, when the arm moves the cursor other than by constant steps, or when a step may or may
+    not have happened at the point of evaluation."""
+    r = _index_core(fn, o)
+    if r is None:
+        return None
+    leaf, k, call_bb = r
+    L = leaf.a.get("local")
+    if L is None:
+        return None
+    eval_bb = call_bb if call_bb is not None else use_bb
+    # an unnamed copy of the cursor: evaluated where the copy was made
+    for _ in range(4):
+        if fn.local_name(L) is not None:
+            break
+        defs = [d for d in prim.local_defs(fn).get(L, []) if d[1] != "partial"]
+        if len(defs) != 1 or defs[0][1] != "assign":
+            return None
+        rv = defs[0][2].rv
+        if rv is None or rv.k not in ("use", "copy_for_deref") or not rv.ops or rv.ops[0].place is None or not rv.ops[0].place.is_local():
+            return None
+        eval_bb = defs[0][0]
+        L = rv.ops[0].place.local
+    if fn.local_name(L) is None:
+        return None
+    shift = 0
+    for wb, kind, obj in arm.local_writes(L):
+        if kind != "assign":
+            return None
+        wo = prim._origin_of_def(fn, (wb, kind, obj), 6, set()).strip()
+        core = wo.kids[0].strip() if wo.k == "field" and wo.kids else wo
+        step = None
+        if core.k == "bin" and core.a in ("Add", "AddWithOverflow", "AddUnchecked") and len(core.kids) == 2:
+            a0, a1 = core.kids[0].strip(), core.kids[1].strip()
+            if a0.k == "var" and a0.a.get("local") == L and a1.k == "const" and isinstance(a1.a.get("v"), int):
+                step = a1.a["v"]
+        if step is None:
+            return None
+        if fn.dominates(wb, eval_bb):
+            shift += step
+        elif eval_bb in fn.reach_from([wb]) and eval_bb in arm.blocks:
+            # (a step on some paths only; steps of an earlier loop iteration do not count: the arm is entered afresh)
+            inside = set(arm.blocks)
+            seen, st = {wb}, [wb]
+            while st:
+                x = st.pop()
+                for y in fn.succs(x):
+                    if y in inside and y not in seen and y != arm.entry:
+                        seen.add(y)
+                        st.append(y)
+            if eval_bb in seen:
+                return None
+    return shift + k
+
+
+def token_predicate(fn, arm, o, use_bb, tok):
+    """Value, for the primary `tok`, of a flag computed from the arm's own token: a constant, `args[i].starts_with(lit)`,
+    `args[i] == lit`, `args[i] != lit`, their negation — with `args[i]` shown to be the arm's own token at the point where
+    it is read (arm_token_abs == 0). None when the flag is anything else."""
+    s = prim.expand_single_def_vars(fn, o, depth=4).strip()
+    if s.k == "const" and isinstance(s.a.get("v"), bool):
+        return s.a["v"]
+    if s.k == "un" and str(s.a) == "Not" and s.kids:
+        v = token_predicate(fn, arm, s.kids[0], use_bb, tok)
+        return None if v is None else (not v)
+    if s.k == "call" and s.a["name"] in ("starts_with", "ends_with", "eq", "ne") and len(s.kids) == 2:
+        subj, lit = s.kids[0], prim.resolve_promoted(fn, s.kids[1]).strip()
+        if lit.k != "const" or not isinstance(lit.a.get("v"), str):
+            subj, lit = s.kids[1], prim.resolve_promoted(fn, s.kids[0]).strip()
+            if s.a["name"] in ("starts_with", "ends_with") or lit.k != "const" or not isinstance(lit.a.get("v"), str):
+                return None
+        if arm_token_abs(fn, arm, subj, s.bb if s.bb is not None else use_bb) != 0:
+            return None
+        v = lit.a["v"]
+        return {"starts_with": tok.startswith(v), "ends_with": tok.endswith(v), "eq": tok == v, "ne": tok != v}[s.a["name"]]
+    return None
+
+
+def arm_blocks_for_token(fn, arm, tok):
+    """the blocks of a (possibly shared) parser arm that can run for the primary `tok`: where the arm tells its tokens
+    apart again (`"-type" | "-xtype" => { let x = args[i] == "-xtype"; .. if x {..} else {..} }`), only the side that the
+    test selects for `tok` is followed; every other branch is followed on both sides"""
+    feas, st, bridge = set(), [arm.entry], set()
+    while st:
+        b = st.pop()
+        if b in feas or b in bridge:
+            continue
+        if b not in arm.blocks:
+            # (an arm that was split per token leaves out the switch on the inner string test: one block is stepped over)
+            bridge.add(b)
+            st.extend(x for x in fn.succs(b) if x in arm.blocks)
+            continue
+        feas.add(b)
+        t = fn.blocks[b].term
+        nxt = fn.succs(b)
+        if t.k == "switch" and fn.local_ty(t.discr.place.local if t.discr is not None and t.discr.place is not None and t.discr.place.is_local() else -1) == "bool":
+            v = token_predicate(fn, arm, prim.switch_pred(fn, b), b, tok)
+            if v is not None:
+                nxt = [tgt for lab, tgt in prim.switch_edges(fn, b) if (lab == 0) == (not v)]
+        st.extend(nxt)
+    return feas
+
+
+def alternatives_for_token(fn, arm, o, tok):
+    """the values `o` can have when the arm runs for `tok`: a variable assigned on several paths of the arm stands for
+    the definitions made in blocks that run for this token"""
+    feas = arm_blocks_for_token(fn, arm, tok)
+    s = o.strip()
+    if s.k == "phi":
+        return [k for k in s.kids if k.bb is None or k.bb in feas]
+    if s.k == "var" and s.a.get("local") is not None and not s.a.get("is_arg") and s.a["local"] not in prim.mut_borrowed(fn):
+        ds = prim.alternatives(fn, s.a["local"])
+        if ds:
+            return [od for bb, od in ds if bb in feas]
+    return [o]
